@@ -773,11 +773,18 @@ func c09R4(p *Prog, r *Report) {
 	r.Fn(FuncName(ps))
 	// (a) unconditional refresh of latestPrimaries for every key of the argument map
 	var refresh *ssa.Store
-	Instrs(dist, func(in ssa.Instruction) {
-		if st, ok := in.(*ssa.Store); ok {
+	var refreshPath []ssa.Instruction
+	InstrsDeep(dist, 2, func(dd DeepInstr) {
+		if st, ok := dd.In.(*ssa.Store); ok {
 			if ia, ok := st.Addr.(*ssa.IndexAddr); ok {
 				if o, f, _, okf := FieldOf(ia.X); okf && o == brokerT && f == "latestPrimaries" {
-					refresh = st
+					// the refresh is keyed by the key of a range over a map (the merge only reads the table)
+					if ex, isEx := ia.Index.(*ssa.Extract); isEx {
+						if _, isNx := ex.Tuple.(*ssa.Next); isNx {
+							refresh = st
+							refreshPath = dd.Path
+						}
+					}
 				}
 			}
 		}
@@ -794,9 +801,14 @@ func c09R4(p *Prog, r *Report) {
 		if nx != nil && !nx.IsString && ex.Index == 1 {
 			rg, _ := nx.Iter.(*ssa.Range)
 			if rg != nil {
-				if _, isParam := rg.X.(*ssa.Parameter); isParam {
+				rangedArg := ArgForParam(refreshPath, rg.X)
+				if prm, isParam := rangedArg.(*ssa.Parameter); isParam && prm.Parent() == dist {
 					// the store's block must be the loop body entry: controlled only by the iterator's ok
 					ctl := controllingIfs(refresh.Block())
+					// ... and a helper that does the refresh is called on every pass of the distribution
+					for _, pc := range refreshPath {
+						ctl = append(ctl, controllingIfs(pc.Block())...)
+					}
 					extra := 0
 					for _, c := range ctl {
 						if e2, ok := c.If.Cond.(*ssa.Extract); ok && e2.Tuple == ssa.Value(nx) && e2.Index == 0 {
@@ -900,6 +912,7 @@ func c09R4(p *Prog, r *Report) {
 		if rxIdx == nil {
 			return
 		}
+		rxIdx = ArgForParam(dd.Path, rxIdx)
 		// the merged list is stored under the same receiver index
 		Instrs(dist, func(in2 ssa.Instruction) {
 			mu, ok := in2.(*ssa.MapUpdate)
